@@ -48,6 +48,18 @@ def step (s : S) : List String → S × String
   | "prof" :: rps :: est :: rest =>
     ({ s with prof := some { subnets := parsePrefixes rest, ctr := Counter.new (nat! rps) 1000000000,
                              est := nat! est } }, "ok")
+  | ["pcheck", now, is4, val] =>
+    match s.prof with
+    | none => (s, "noprof")
+    | some p =>
+      let (p', res) := p.check (int! now) { is4 := bool! is4, val := nat! val }
+      ({ s with prof := some p' }, match res with | .pass => "pass" | .drop => "drop" | .useGlobal => "global")
+  | ["presp", now, is4, val, len] =>
+    match s.prof with
+    | none => (s, "noprof")
+    | some p =>
+      ({ s with prof := some (p.countResponses (loopTimes (int! now) 2 (respWeight p.est (nat! len)))
+          { is4 := bool! is4, val := nat! val }) }, "ok")
   | ["noprof"] => ({ s with prof := none }, "ok")
   | ["mw", limited, now, is4, val, qt, len, isProf] =>
     let respLen := if len == "-" then none else some (nat! len)
